@@ -362,6 +362,14 @@ def history(rng, version, length, profile):
             pos = rng.randrange(4, len(st) + 1)
             st[pos:pos] = [["fw", rng.choice([n, m, [n, m], 9]), ft, fv, "FILE:" + rng.choice(["eof-only", "address-only", "blank", "empty", "missing"])],
                            ["in", f"{rng.choice([n, m])};1;1;0;2;1"], ["in", f"{m};255;4;0;0;{cfgp}"], ["in", f"{n};255;4;0;2;{blk(0)}"]]
+        if rng.random() < 0.3:
+            # the controller updates from a hex FILE; later the file at that path is replaced by garbage of the same size and
+            # modification time and another update is requested from it (for another node / version): nothing may change
+            fv2 = (fv + 1) % 65536
+            st[4:4] = [["fw", [n], ft, fv, "HEXFILE:" + img]]
+            pos = rng.randrange(6, len(st) + 1)
+            st[pos:pos] = [["fw", rng.choice([m, [m], [n, m]]), ft, fv2, "HEXFILE:garbage"], ["in", f"{m};1;1;0;2;1"],
+                           ["in", f"{m};255;4;0;0;{w(ft) + w(fv2) + w(5) + w(0x1234) + w(0x0101)}"], ["in", f"{m};255;4;0;2;{blk(0, ft, fv2)}"]]
         if rng.random() < 0.5:
             # the node restarts without ever asking for the firmware; the controller schedules the same update again
             extra = [["fw", [n], ft, fv, img if rng.random() < 0.3 else None], ["in", f"{n};255;0;0;17;{version}"],
